@@ -29,6 +29,10 @@ var (
 
 	// ErrUnsupportedGeometry is returned when geometry type is not supported by this lib.
 	ErrUnsupportedGeometry = errors.New("wkbcommon: unsupported geometry")
+
+	// ErrNestingTooDeep is returned when geometry collections are nested
+	// more than MaxCollectionDepth deep.
+	ErrNestingTooDeep = errors.New("wkbcommon: geometry collections nested too deep")
 )
 
 // Scan will scan the input []byte data into a geometry.
